@@ -11,6 +11,7 @@ from . import boot  # noqa: F401
 
 import dateutil.parser
 import rdflib.term
+import rdflib.plugins.parsers.notation3 as _n3
 import tempfile
 
 
@@ -45,6 +46,7 @@ CLOCK = SimClock()
 
 _real_parse = dateutil.parser.parse
 _real_uuid4 = rdflib.term.uuid4
+_real_n3_uuid4 = _n3.uuid4
 _real_candidates = tempfile._get_candidate_names
 _state = {"rng": None, "uuid_calls": 0, "installed": False}
 
@@ -83,6 +85,7 @@ def install(seed, clock_origin=None):
     _names.n = 0
     dateutil.parser.parse = _sim_parse
     rdflib.term.uuid4 = _sim_uuid4
+    _n3.uuid4 = _sim_uuid4  # the N3/TriG parser names parsed blank nodes from its own import
     tempfile._get_candidate_names = lambda: _names
     _state["installed"] = True
 
@@ -95,6 +98,7 @@ def reseed_uuid(seed):
 def uninstall():
     dateutil.parser.parse = _real_parse
     rdflib.term.uuid4 = _real_uuid4
+    _n3.uuid4 = _real_n3_uuid4
     tempfile._get_candidate_names = _real_candidates
     _state["installed"] = False
 
